@@ -292,6 +292,255 @@ def check_c16(res, ctx):
         "all values below 2^22 + strided samples" if ctx.tier == "quick" else "the complete 2^32 domain")
 
 
+# ----------------------------------------------------------------------------- C15
+
+def oracle_c15(line, h):
+    t = line.split()
+    if t[0] == "strcmp":
+        a = bytes.fromhex(t[1]) if t[1] != "-" else b""
+        b = bytes.fromhex(t[2]) if t[2] != "-" else b""
+        exp = (a > b) - (a < b)
+        if h != "str=%d ba=%d" % (exp, exp):
+            return "compare(%s,%s) gives '%s', lexicographic byte order says %d" % (t[1], t[2], h, exp)
+    elif t[0] == "strmk":
+        a = bytes.fromhex(t[1]) if t[1] != "-" else b""
+        c = ref.cstr(a)
+        exp = "len=%d %s copy=%d %s cstr=%d %s ba=%d %s" % (len(a), (a + b"\0").hex(), len(a), (a + b"\0").hex(),
+                                                          len(c), (c + b"\0").hex(), len(a), core.hexs(a))
+        if h != exp:
+            return "create/copy of %s gives '%s' expected '%s'" % (t[1], h, exp)
+    elif t[0] == "objeq":
+        # objeq OBJ OBJ
+        def obj(i):
+            tid, n = int(t[i]), int(t[i + 1])
+            return (tid, tuple(t[i + 2:i + 2 + n])), i + 2 + n
+        a, j = obj(1)
+        b, _ = obj(j)
+        exp = "eq=%d rev=%d self=1 copy=1" % (a == b, a == b)
+        if h != exp:
+            return "sbdf_obj_eq gives '%s', content equality says '%s'" % (h, exp)
+    return None
+
+
+def check_c15(res, ctx):
+    r = ctx.rng
+    alpha = [0, 1, 0x7F, 0x80, 0xFF]
+    L = 3 if ctx.tier == "quick" else 4
+    strs = [b""]
+    cur = [b""]
+    for _ in range(L):
+        cur = [c + bytes([x]) for c in cur for x in alpha]
+        strs += cur
+    lines = []
+    if ctx.tier == "quick":
+        pairs = [(a, b) for a in strs for b in strs if len(a) + len(b) <= 5]
+    else:
+        pairs = [(a, b) for a in strs for b in strs if len(a) + len(b) <= 7]
+    for a, b in pairs:
+        lines.append("strcmp %s %s" % (core.hexs(a), core.hexs(b)))
+    for _ in range(2000):
+        a = gen.rstr(r)
+        b = a if r.random() < 0.2 else (a[:r.randrange(len(a) + 1)] + gen.rbytes(r, r.randrange(3)))
+        lines.append("strcmp %s %s" % (core.hexs(a), core.hexs(b)))
+    for a in strs[:200]:
+        lines.append("strmk " + core.hexs(a))
+    for _ in range(300):
+        lines.append("strmk " + core.hexs(gen.rstr(r, big=True)))
+    compare(res, ctx, lines, "c15 string/bytearray helpers", oracle=oracle_c15,
+            rule="all pairs of byte strings over {00,01,7f,80,ff} up to the length bound (exhaustive) + random long strings; create/copy of every string",
+            nontrivial=lambda l: l.split()[1] != l.split()[-1])
+    ol = []
+    for _ in range(3000 if ctx.tier == "quick" else 30000):
+        a = gen.robj(r, n=r.choice([0, 1, 2, 3, 5, 9]), runs=False)
+        k = r.random()
+        b = ref.Obj(a.tid, list(a.elems))
+        if k < 0.3:
+            pass
+        elif k < 0.6 and b.elems:
+            i = r.randrange(len(b.elems))
+            e = bytearray(b.elems[i])
+            if e and (r.random() < 0.7 or not ref.is_arr(a.tid)):
+                e[r.randrange(len(e))] ^= 1 << r.randrange(8)
+            elif ref.is_arr(a.tid):
+                e = e + b"\0" if r.random() < 0.5 else e[:-1]
+            b.elems[i] = bytes(e)
+        elif k < 0.75:
+            b = gen.robj(r, tid=a.tid, n=len(a.elems), runs=False)
+        elif k < 0.85:
+            b.elems = b.elems[:-1] if b.elems and r.random() < 0.5 else b.elems + [gen.relem(r, a.tid)]
+        else:
+            t2 = r.choice([t for t in ref.ALL_TIDS if ref.SIZES.get(t) == ref.SIZES.get(a.tid) and t != a.tid] or [a.tid])
+            b = ref.Obj(t2, list(a.elems))
+        ol.append("objeq %s %s" % (a.script(), b.script()))
+    compare(res, ctx, ol, "c15 object equality", oracle=oracle_c15,
+            rule="pairs of objects of all types: identical, one element/bit/length changed, other type of the same size, other count")
+
+
+# ----------------------------------------------------------------------------- C19
+
+def oracle_c19(line, h):
+    t = line.split()
+    s = bytes.fromhex(t[1]) if t[1] != "-" else b""
+    m = re.match(r"size=(-?\d+) written=(-?\d+) out=(\S+)$", h)
+    if not m:
+        return "unexpected output " + h
+    size, written, out = int(m.group(1)), int(m.group(2)), (bytes.fromhex(m.group(3)) if m.group(3) != "-" else b"")
+    if size != written:
+        return "length-only call returned %d, converting call wrote %d" % (size, written)
+    if not out.endswith(b"\0"):
+        return "output not terminated"
+    body = out[:-1]
+    s = ref.cstr(s)
+    if t[0] == "i2u":
+        try:
+            if body.decode("utf-8").encode("latin-1") != s:
+                return "ISO-8859-1 -> UTF-8 of %s gives %s" % (s.hex(), body.hex())
+        except Exception as e:
+            return "ISO-8859-1 -> UTF-8 of %s is not well-formed UTF-8: %s" % (s.hex(), body.hex())
+    else:
+        try:
+            u = s.decode("utf-8")
+            exp = bytes((ord(c) if ord(c) < 256 else 0x1A) for c in u)
+            if body != exp:
+                return "UTF-8 -> ISO-8859-1 of well-formed %s gives %s expected %s" % (s.hex(), body.hex(), exp.hex())
+        except UnicodeDecodeError:
+            pass
+    return None
+
+
+def check_c19(res, ctx):
+    r = ctx.rng
+    lines = []
+    for a in range(1, 256):
+        lines.append("u2i %02x" % a)
+        lines.append("i2u %02x" % a)
+    if ctx.tier == "quick":
+        seconds = list(range(1, 256))
+        firsts = list(range(1, 256))
+    else:
+        seconds = firsts = list(range(1, 256))
+    for a in firsts:
+        for b in seconds:
+            lines.append("u2i %02x%02x" % (a, b))
+    for a in firsts:
+        for b in seconds[::3] if ctx.tier == "quick" else seconds:
+            lines.append("i2u %02x%02x" % (a, b))
+    # round trip through the real code: latin1 -> utf8 -> latin1
+    special = [0xC0, 0xC2, 0xC3, 0xDE, 0xDF, 0xE0, 0xEF, 0xF0, 0xF4, 0xFF, 0x80, 0xBF, 0x41, 0x7F, 0x1A]
+    for _ in range(4000 if ctx.tier == "quick" else 60000):
+        n = r.randrange(0, 12)
+        b = bytearray(r.choice(special) if r.random() < 0.6 else r.randrange(1, 256) for _ in range(n))
+        lines.append("u2i " + core.hexs(bytes(b)))
+        lines.append("i2u " + core.hexs(bytes(b)))
+        # well-formed UTF-8 with code points around 0x7f/0x80/0xff/0x100/0x7ff/0x800
+        u = "".join(chr(r.choice([0x41, 0x7F, 0x80, 0xA0, 0xFF, 0x100, 0x7FF, 0x800, 0xFFFF, 0x10000, r.randrange(1, 0x300)])) for _ in range(r.randrange(1, 6)))
+        lines.append("u2i " + u.encode("utf-8").hex())
+    if ctx.tier != "quick":
+        for a in [0xC2, 0xC3, 0xDE, 0xDF, 0xE0, 0x41, 0x80]:
+            for b in range(1, 256):
+                for c in range(1, 256):
+                    lines.append("u2i %02x%02x%02x" % (a, b, c))
+    compare(res, ctx, lines, "c19 charset helpers", oracle=oracle_c19,
+            rule="all strings over 1..255 of length 1 and 2 (exhaustive for UTF-8->Latin-1), random strings biased to lead/continuation bytes at the end, well-formed UTF-8 around the code-point boundaries; each on an exactly-sized heap buffer under ASan")
+    res.cov["exhaustive"] = False
+
+
+# ----------------------------------------------------------------------------- generated-table witnesses (C18, C20, C09)
+
+def parse_gen_pairs(fname, defname):
+    txt = open(os.path.join(LEAN, "Sbdf", "Gen", fname)).read()
+    m = re.search(r"def %s\b[^\n]*:=\s*\[(.*?)\n?\]" % defname, txt, re.S)
+    if not m:
+        return []
+    return re.findall(r'\("((?:[^"\\]|\\.)*)",\s*"((?:[^"\\]|\\.)*)"', m.group(1))
+
+
+def c20_allowed():
+    txt = open(os.path.join(LEAN, "Sbdf", "Props", "C20.lean")).read()
+    m = re.search(r"def allowed : List String :=\s*\[(.*?)\]", txt, re.S)
+    return set(re.findall(r'"([^"]+)"', m.group(1)))
+
+
+def check_c20(res, ctx):
+    syms = parse_gen_pairs("Surface.lean", "undefinedSyms")
+    allowed = c20_allowed()
+    bad = [(o, s) for o, s in syms if s not in allowed]
+    res.add_cases(["%s:%s" % x for x in syms], rule="every (object, undefined external symbol) pair of the library as compiled from the working tree (complete surface, not a sample)")
+    res.cov["exhaustive"] = True
+    res.cov["surface"] = sorted(set(s for _, s in syms))
+    for o, s in bad:
+        ctx.found_input = True
+        res.violation("object %s refers to external symbol '%s', which is outside the passive family (process, std stream, file system, environment, clock, locale or random access)" % (o, s),
+                      ["# witness: nm -u of %s compiled from /repo/src lists %s" % (o, s)], found_input=True)
+    asm = parse_gen_pairs("Surface.lean", "asmUses")
+    for f, k in asm:
+        ctx.found_input = True
+        res.violation("inline assembly (%s) in %s" % (k, f), ["# witness: %s in %s" % (k, f)], found_input=True)
+
+
+def check_c18(res, ctx):
+    txt = open(os.path.join(LEAN, "Sbdf", "Gen", "Globals.lean")).read()
+    rows = re.findall(r'\("([^"]+)", "([^"]+)", "([^"]+)", (true|false), \[(.*?)\]\)', txt)
+    cases = []
+    for f, name, storage, const, refs in rows:
+        for fn, kind in re.findall(r'\("([^"]+)", "([^"]+)"\)', refs):
+            cases.append("%s:%s (%s) referenced in %s as %s" % (f, name, storage, fn, kind))
+            if kind not in ("read", "constarg"):
+                ctx.found_input = True
+                res.violation("variable %s in %s (%s) is accessed in %s with access kind '%s': mutable shared state" % (name, f, storage, fn, kind),
+                              ["# witness: clang AST of %s: reference to %s in %s is neither a read nor an address passed to a const parameter" % (f, name, fn)],
+                              found_input=True)
+        if storage != "file-scope":
+            ctx.found_input = True
+            res.violation("function-local static variable %s in %s" % (name, f), ["# witness: %s:%s" % (f, name)], found_input=True)
+    res.add_cases(cases or ["(no static-storage variables)"], rule="every reference to every static-storage variable of src/*.c (complete, from the clang AST)")
+    # runtime part: real interleavings under ThreadSanitizer, outputs equal to the sequential model
+    r = ctx.rng
+    lines = []
+    n = 160 if ctx.tier == "quick" else 1200
+    for i in range(n):
+        k = i % 4
+        if k == 0:
+            lines.append("rt " + gen.rtable(r, small=True).script())
+        elif k == 1:
+            lines.append("va %d %s" % (r.choice([0, 1, 2, 3]), gen.robj(r).script()))
+        elif k == 2:
+            lines.append(gen.rhistory(r, 20))
+        else:
+            lines.append("frw %s -" % gen.rphys(r).encode().b.hex())
+    hx = ctx.h("tsan")
+    mout = core.run_driver(ctx.model, lines)
+    nthreads = 8
+    reports = 0
+    rounds = 2 if ctx.tier == "quick" else 6
+    for rd in range(rounds):
+        p = subprocess.run([hx, "--threads", str(nthreads)], input="\n".join(lines) + "\n", stdout=subprocess.PIPE,
+                           stderr=subprocess.PIPE, text=True, env=core.ENV, timeout=1800)
+        hout = p.stdout.split("\n")
+        err = clean(p.stderr)
+        if "ThreadSanitizer" in err:
+            reports += 1
+            m = re.search(r"WARNING: ThreadSanitizer: (.*?)\n(.*?)(?:\n\n|$)", err, re.S)
+            in_src = "/src/" in err
+            ctx.found_input = True
+            res.violation("ThreadSanitizer report while %d threads ran independent workloads%s: %s" % (
+                nthreads, " (frame in the library)" if in_src else "", (m.group(0) if m else err)[:1500]), lines[:nthreads * 2], found_input=True)
+            break
+        bad = [i for i in range(len(lines)) if i >= len(hout) or hout[i] != mout[i]]
+        if bad or p.returncode != 0:
+            i = bad[0] if bad else 0
+            ctx.found_input = True
+            res.violation("a thread obtained a result different from the sequential run (rc=%d)" % p.returncode, [lines[i]], found_input=True,
+                          extra=["concurrent: " + (hout[i] if i < len(hout) else "MISSING")[:2000], "sequential model: " + mout[i][:2000]])
+            break
+    res.add_cases(lines, rule="%d rounds x %d threads x mixed workloads (table round trips, value arrays, metadata histories, foreign-stream reads) under ThreadSanitizer; per-line outputs equal to the sequential model" % (rounds, nthreads))
+    res.cov["tsan_rounds"] = rounds
+    res.cov["tsan_reports"] = reports
+    res.cov["explanation"] = ("Lean: non-interference theorem for threads with disjoint private state over immutable shared data + decide over the "
+                              "regenerated table of static-storage variable accesses and the external symbol surface. Runtime part (real interleavings) "
+                              "sampled under ThreadSanitizer; data-race freedom of the C code itself is not proved.")
+
+
 # ----------------------------------------------------------------------------- registry / driver
 
 CHECKS = {}
@@ -302,6 +551,10 @@ def register(pid, level, fn, proof=True):
 
 
 register("C16", "proof", check_c16)
+register("C15", "proof", check_c15)
+register("C19", "proof", check_c19)
+register("C20", "proof", check_c20)
+register("C18", "other", check_c18)
 
 
 def run(pid, tier, seed):
